@@ -272,6 +272,13 @@ func (ex *Exec) binop(op token.Token, x, y *Term, mt mtype, where string) *Term 
 		if x.IsConst() && y.IsConst() {
 			return IntC(new(big.Int).Xor(x.val, y.val))
 		}
+		if mt.W == 8 {
+			r := Xor8(x, y)
+			if !r.IsConst() {
+				ex.st.addFact(And(Le(IntI(0), r), Lt(r, IntI(256))), where+":xor8")
+			}
+			return r
+		}
 		r := ex.freshWord("xor", mt)
 		z := IntI(0)
 		one := IntI(1)
